@@ -191,6 +191,38 @@ pub struct Deco {
     pub text: J,
 }
 
+/// An object that looks like the definition of the LAST named type defined in `j` (same name and
+/// namespace, other content): as the value of a custom attribute it is plain data.
+fn lookalike(j: &J) -> Option<J> {
+    fn last_named(j: &J, out: &mut Option<(String, Option<String>)>) {
+        match j {
+            J::Array(a) => a.iter().for_each(|x| last_named(x, out)),
+            J::Object(o) => {
+                if matches!(o.get("type").and_then(|t| t.as_str()), Some("record" | "enum" | "fixed")) {
+                    if let Some(n) = o.get("name").and_then(|n| n.as_str()) {
+                        *out = Some((n.to_string(), o.get("namespace").and_then(|n| n.as_str()).map(|s| s.to_string())));
+                    }
+                }
+                for k in ["fields", "type", "items", "values"] {
+                    if let Some(v) = o.get(k) {
+                        last_named(v, out);
+                    }
+                }
+            }
+            _ => {}
+        }
+    }
+    let mut found = None;
+    last_named(j, &mut found);
+    found.map(|(name, ns)| {
+        let mut o = json!({"type": "enum", "name": name, "symbols": ["LOOKALIKE"]});
+        if let Some(ns) = ns {
+            o["namespace"] = json!(ns);
+        }
+        o
+    })
+}
+
 pub const NASTY_DOC: &str = "doc with \"quotes\", back\\slash, \ttab, \u{1}ctl, \u{e9} and \u{1F600}";
 
 /// All single decorations of `j` (one decoration at one node).
@@ -210,6 +242,13 @@ pub fn decorations(j: &J) -> Vec<Deco> {
                 with("field-doc", true, &|x| x["doc"] = json!(NASTY_DOC));
                 with("field-doc-empty", true, &|x| x["doc"] = json!(""));
                 with("field-doc-blank", true, &|x| x["doc"] = json!(" \n\t"));
+                // long docs whose every byte offset falls inside a two-byte character for one of the two
+                with("field-doc-long-non-ascii", true, &|x| x["doc"] = json!("\u{e9}".repeat(150)));
+                with("field-doc-long-non-ascii-shifted", true, &|x| x["doc"] = json!(format!("a{}", "\u{e9}".repeat(150))));
+                // a custom attribute whose value looks like the definition of a named type of this document
+                if let Some(look) = lookalike(j) {
+                    with("field-custom-lookalike-definition", true, &|x| x["replacedBy"] = look.clone());
+                }
                 with("field-aliases", true, &|x| x["aliases"] = json!(["old_name", "older"]));
                 with("field-order-descending", true, &|x| x["order"] = json!("descending"));
                 with("field-order-ignore", true, &|x| x["order"] = json!("ignore"));
@@ -226,6 +265,8 @@ pub fn decorations(j: &J) -> Vec<Deco> {
                     with("type-doc", true, &|x| x["doc"] = json!(NASTY_DOC));
                     with("type-doc-empty", true, &|x| x["doc"] = json!(""));
                     with("type-doc-blank", true, &|x| x["doc"] = json!(" \n\t"));
+                    with("type-doc-long-non-ascii", true, &|x| x["doc"] = json!("\u{e9}".repeat(150)));
+                    with("type-doc-long-non-ascii-shifted", true, &|x| x["doc"] = json!(format!("a{}", "\u{e9}".repeat(150))));
                     with("type-aliases-relative", true, &|x| x["aliases"] = json!(["OldName"]));
                     with("type-aliases-qualified", true, &|x| x["aliases"] = json!(["other.ns.OldName", "Old2"]));
                     with("type-custom-scalar", true, &|x| x["x-custom"] = json!("v"));
